@@ -1,5 +1,5 @@
 (* C07 - the storage cache is transparent.  Statements only. *)
-From Coq Require Import List NArith ZArith Lia.
+From Coq Require Import List NArith ZArith Lia Bool.
 From V Require Import Lib.Lex Lib.SMap Lib.Check Storage.Spec Gen.Params C06_Storage.Model C07_Cache.Model C07_Cache.Proofs.
 Import ListNotations.
 
@@ -7,10 +7,31 @@ Import ListNotations.
 Lemma positive_fills_are_guarded : cache_positive_fill_guarded = true /\ cache_batch_fill_guarded = true.
 Proof. split; reflexivity. Qed.
 
+(* a row whose entry is too big for fastcache is marked at every store of a found row, and the three
+   read paths send a marked row to the storage (repaired finding F26) *)
+Lemma big_values_are_marked : cache_big_values_marked = true.
+Proof. reflexivity. Qed.
+
+(* what setCached does not mark, fastcache stores: maxCachedEntrySize + 4 <= chunkSize, and the entry's
+   length fits the 16-bit length field *)
+Lemma unmarked_entries_fit_fastcache :
+  ((cache_max_entry_size + 4 <=? fastcache_chunk_size) && (cache_max_entry_size <=? 65536))%Z = true.
+Proof. reflexivity. Qed.
+
+(* under a key so long that not even the mark fits a fastcache chunk nothing is cached at all, "known
+   missing" included: setCached and setAbsent test cacheableKey first (repaired finding F26b) *)
+Lemma unfit_keys_are_not_cached : cache_key_guard = true.
+Proof. reflexivity. Qed.
+
+(* the guard is exact: a key is cacheable iff the mark fits under it (keys of up to 65530 bytes) *)
+Lemma cacheable_is_mark_fits : forall pk cc, cacheable_key pk cc = key_fits pk cc.
+Proof. exact cacheable_is_mark_fits_proved. Qed.
+
 (* ---- schedules ----
    One writer performing any program of Put / InsertIfNotExists / CompareAndDelete writes on a key
-   (each succeeding) and any number of readers performing Get / TTLGet on it, the key present or
-   absent at the start, interleaved in any order at the granularity
+   (each succeeding; values of any size: WPutBig v, like any value number >= 256, is a value whose
+   entry does not fit the cache) and any number of readers performing Get / TTLGet on it, the key
+   present or absent at the start, interleaved in any order at the granularity
    [storage call | cache fill / cache update]:
    a read that starts when c writes have completed returns the content left by some write j >= c
    (or, for c = 0, the initial content), i.e. never something older than a write that had completed
@@ -35,7 +56,7 @@ Qed.
    F8b), a reader that fetched the value before the delete completed would re-fill it afterwards and
    every later Get would return the deleted value. *)
 Example no_stale_if_delete_drops_entry_refuted :
-  exists sched obs, sch_run_gen false (sch_init (Some 7%N) [WDel] [[OpGet]; [OpGet]]) sched = Some obs
+  exists sched obs, sch_run_gen false true (sch_init (Some 7%N) [WDel] [[OpGet]; [OpGet]]) sched = Some obs
                     /\ no_stale [Some 7%N] [WDel] false [] sched obs = false.
 Proof.
   exists [PR 0; PR 0; PW; PW; PR 0; PR 1]. eexists. split; [vm_compute; reflexivity|vm_compute; reflexivity].
@@ -47,12 +68,30 @@ Example delete_schedule_now_fresh :
               /\ In (SGetHit 1 None) obs.
 Proof. eexists. split; [vm_compute; reflexivity|cbn; tauto]. Qed.
 
+(* The mark is necessary: if the store of an entry that does not fit were simply ignored (fastcache's
+   Set under the code before the repair of F26), the "not found" entry left by an earlier read would
+   outlive the completed Put of a big value and every later Get would still answer "not found". *)
+Example no_stale_if_big_value_dropped_refuted :
+  exists sched obs, sch_run_gen true false (sch_init None [WPutBig 7%N] [[OpGet]; [OpGet]]) sched = Some obs
+                    /\ no_stale [None] [WPutBig 7%N] false [] sched obs = false.
+Proof.
+  exists [PR 0; PR 0; PR 0; PW; PW; PR 1]. eexists. split; [vm_compute; reflexivity|vm_compute; reflexivity].
+Qed.
+
+(* the same schedule on the code as it is: the second reader is sent to the storage and finds the value *)
+Example big_value_schedule_now_fresh :
+  exists obs, sch_run (sch_init None [WPutBig 7%N] [[OpGet]; [OpGet]]) [PR 0; PR 0; PR 0; PW; PW; PR 1; PR 1; PR 1] = Some obs
+              /\ In (SGetStart 1) obs /\ In (SGetDone (Some 263%N)) obs.
+Proof. eexists. split; [vm_compute; reflexivity|cbn; tauto]. Qed.
+
 (* ---- sequential histories ----
    For every history of Put / PutBatch / Get / GetBatch / InsertIfNotExists / CompareAndSwap /
-   CompareAndDelete / TTLGet / Read / TTLRead / QueryTTL / clock advances whose (pKey, cCols) pairs have pairwise distinct
-   concatenations (K_inj: the cache key pKey++cCols is injective on them - without it: finding F7),
+   CompareAndDelete / TTLGet / Read / TTLRead / QueryTTL / clock advances, with values of ANY size and keys
+   of ANY length, whose (pKey, cCols) pairs have pairwise distinct concatenations (K_inj: the cache key
+   pKey++cCols is injective on them - without it: finding F7),
    every output of the cache over the reference storage equals the output of the reference storage
-   alone, except where the storage interface leaves the output open (dont_care). *)
+   alone, except where the storage interface leaves the output open (dont_care).
+   The full statement (no hypothesis on the keys) is refuted by cache_key_collision_refuted. *)
 Theorem cache_transparent :
   forall (K : bytes * bytes -> Prop),
   (forall k1 k2, K k1 -> K k2 -> make_key (fst k1) (snd k1) = make_key (fst k2) (snd k2) -> k1 = k2) ->
@@ -66,6 +105,34 @@ Proof.
   exists [OPut [97%N] [98%N; 99%N] [1%N]; OGet [97%N; 98%N] [99%N]]. vm_compute. discriminate.
 Qed.
 
+(* The key guard is necessary (F26b): without it (the flag false: the code before the repair), with a
+   cache key of exactly 65531 bytes "not found" fits a chunk and the mark does not, so the cached "not
+   found" outlives the Put *)
+Example cache_mark_must_fit_refuted :
+  exists ops, list_eqb sout_eqb (run_cache_gen spec_step true false (mkC ([], 0%Z) [] 0%Z) ops) (run_spec ([], 0%Z) ops) = false.
+Proof.
+  exists [OGet [112%N; 107%N] (repeat 9%N (N.to_nat 65529)); OPut [112%N; 107%N] (repeat 9%N (N.to_nat 65529)) [1%N];
+          OGet [112%N; 107%N] (repeat 9%N (N.to_nat 65529))].
+  vm_compute. reflexivity.
+Qed.
+
+(* The mark is necessary (F26): with the stores of the code before the repair (the flag false: an entry
+   that does not fit is ignored by fastcache, the older entry stays) a cached "not found" outlives the
+   Put of a 70000-byte value, and a cached small value outlives it too. *)
+Example cache_big_value_dropped_refuted :
+  exists ops, list_eqb sout_eqb (run_cache_gen spec_step false false (mkC ([], 0%Z) [] 0%Z) ops) (run_spec ([], 0%Z) ops) = false.
+Proof.
+  exists [OGet [97%N; 97%N] [1%N]; OPut [97%N; 97%N] [1%N] (repeat 7%N (N.to_nat 70000)); OGet [97%N; 97%N] [1%N]].
+  vm_compute. reflexivity.
+Qed.
+
+Example cache_big_value_after_small_dropped_refuted :
+  exists ops, list_eqb sout_eqb (run_cache_gen spec_step false false (mkC ([], 0%Z) [] 0%Z) ops) (run_spec ([], 0%Z) ops) = false.
+Proof.
+  exists [OPut [97%N; 97%N] [1%N] [5%N]; OPut [97%N; 97%N] [1%N] (repeat 7%N (N.to_nat 70000)); OTTLGet [97%N; 97%N] [1%N]].
+  vm_compute. reflexivity.
+Qed.
+
 (* non-vacuity *)
 Example no_stale_nonvacuous :
   let sched := [PR 0; PR 0; PW; PW; PR 0; PR 1; PW; PR 1; PW; PR 1; PR 2; PR 2] in
@@ -73,20 +140,43 @@ Example no_stale_nonvacuous :
               /\ In (SGetHit 1 (Some 1%N)) obs /\ In (SGetDone None) obs.
 Proof. eexists. split; [vm_compute; reflexivity|]. split; cbn; tauto. Qed.
 
+(* a program with a big value between two small ones: the mark is overwritten by the next small value *)
+Example no_stale_big_value_nonvacuous :
+  let sched := [PR 0; PW; PR 0; PW; PR 1; PR 0; PW; PW; PR 1; PR 1; PR 1; PW; PW; PR 1] in
+  exists obs, sch_run (sch_init None [WPut 1%N; WPutBig 2%N; WPut 3%N] [[OpGet]; [OpGet; OpGet; OpGet]]) sched = Some obs
+              /\ In (SGetHit 1 (Some 1%N)) obs /\ In (SGetStart 2) obs /\ In (SGetDone (Some 258%N)) obs
+              /\ In (SGetHit 3 (Some 3%N)) obs.
+Proof. eexists. split; [vm_compute; reflexivity|]. cbn; tauto. Qed.
+
 Example cache_transparent_nonvacuous :
   let K := fun k : bytes * bytes => fst k = [97%N; 97%N] in
-  let ops := [OGet [97%N; 97%N] [1%N]; OIns [97%N; 97%N] [1%N] [7%N] 1%Z; OTTLGet [97%N; 97%N] [1%N];
+  let ops := fun big long : bytes =>
+             [OGet [97%N; 97%N] [1%N]; OIns [97%N; 97%N] [1%N] [7%N] 1%Z; OTTLGet [97%N; 97%N] [1%N];
               OAdvance 1000%Z; OTTLGet [97%N; 97%N] [1%N]; OCad [97%N; 97%N] [] []; OPut [97%N; 97%N] [] []; OGet [97%N; 97%N] [];
-              OGetBatch [97%N; 97%N] [[]; [2%N]]; OPutBatch [([97%N; 97%N], [2%N], [9%N])]; OGetBatch [97%N; 97%N] [[]; [2%N]]] in
-  Forall (op_domain K) ops /\
+              OGetBatch [97%N; 97%N] [[]; [2%N]]; OPutBatch [([97%N; 97%N], [2%N], [9%N])]; OGetBatch [97%N; 97%N] [[]; [2%N]];
+              OPut [97%N; 97%N] [2%N] big; OGet [97%N; 97%N] [2%N]; OTTLGet [97%N; 97%N] [2%N]; OGetBatch [97%N; 97%N] [[]; [2%N]];
+              OCas [97%N; 97%N] [2%N] big [4%N] 0%Z; OGet [97%N; 97%N] [2%N];
+              OPutBatch [([97%N; 97%N], [2%N], big); ([97%N; 97%N], [3%N], [1%N])]; OGetBatch [97%N; 97%N] [[3%N]; [2%N]];
+              OCad [97%N; 97%N] [2%N] big; OGet [97%N; 97%N] [2%N];
+              OGet [97%N; 97%N] long; OPut [97%N; 97%N] long [5%N]; OGet [97%N; 97%N] long; OCad [97%N; 97%N] long [5%N];
+              OTTLGet [97%N; 97%N] long; OGetBatch [97%N; 97%N] [long; [3%N]]] in
+  (forall big long, Forall (op_domain K) (ops big long)) /\
   (forall k1 k2, K k1 -> K k2 -> make_key (fst k1) (snd k1) = make_key (fst k2) (snd k2) -> k1 = k2) /\
-  run_cache spec_step (mkC ([], 0%Z) [] 0%Z) ops = run_spec ([], 0%Z) ops.
+  (* with a 70000-byte value and a 65531-byte cache key: the outputs coincide, the value is read back whole
+     through the mark, and the row under the long key is read from the storage *)
+  let ops1 := ops (repeat 7%N (N.to_nat 70000)) (repeat 9%N (N.to_nat 65529)) in
+  list_eqb sout_eqb (run_cache spec_step (mkC ([], 0%Z) [] 0%Z) ops1) (run_spec ([], 0%Z) ops1) = true /\
+  sout_eqb (nth 12 (run_cache spec_step (mkC ([], 0%Z) [] 0%Z) ops1) RUnit) (RGet (Some (repeat 7%N (N.to_nat 70000)))) = true /\
+  sout_eqb (nth 23 (run_cache spec_step (mkC ([], 0%Z) [] 0%Z) ops1) RUnit) (RGet (Some [5%N])) = true.
 Proof.
-  cbn zeta. split; [|split].
-  - repeat constructor; cbn; try reflexivity; try lia.
+  cbn zeta. split; [|split; [|split; [|split]]].
+  - intros big long. repeat constructor; cbn; try reflexivity; try lia.
   - intros [p1 c1] [p2 c2] H1 H2 E. cbn in *. subst. unfold make_key in E. apply app_inv_head in E. congruence.
+  - vm_compute. reflexivity.
+  - vm_compute. reflexivity.
   - vm_compute. reflexivity.
 Qed.
 
 Print Assumptions no_stale_read_after_completed_write.
 Print Assumptions cache_transparent.
+Print Assumptions cacheable_is_mark_fits.
